@@ -95,7 +95,8 @@ func anyDoc(k gen.Kind) *gen.Doc {
 
 // ZZC01Scalar: root scalar example of every kind x flags, against a document of every kind.
 func ZZC01Scalar() {
-	k := gen.Kind(v.Choose(0, int(gen.KStr)))
+	// every scalar kind, plus the empty object and the empty array as examples
+	k := gen.Kind(v.Choose(0, int(gen.KArr)))
 	e := &gen.Ex{Kind: k, Lit: gen.ScalarLit(k)}
 	scalarFlags(e, v.Choose(0, 3))
 	d := anyDoc(gen.Kind(v.Choose(0, int(gen.NKinds)-1)))
